@@ -12,6 +12,8 @@
 (* Expect(r) is the statement's classification:                            *)
 (*   "4xx"  malformed: status 400-499, no mutating backend call, no panic  *)
 (*   "any"  not malformed: a complete response without panic               *)
+(*   "not5xx" / "no5xx"  validity undecided at this abstraction, but a     *)
+(*          server error is never right (without / with a possible store)  *)
 (* Structure-mutated XML documents (Mutants) are at least "not5xx": a      *)
 (* document that stays valid is answered 207, a malformed one 4xx, and the *)
 (* backend doubles never fail, so 5xx is never right.                      *)
@@ -43,6 +45,9 @@ Expect(r) == IF Malformed(r) THEN "4xx" ELSE IF Grey(r) THEN "not5xx" ELSE "any"
 OutcomeOK(want, o) == /\ ~o.panic /\ o.st >= 100 /\ o.st <= 599
                       /\ (want = "4xx" => o.st >= 400 /\ o.st <= 499 /\ o.mut = 0)
                       /\ (want = "not5xx" => o.st <= 499 /\ o.mut = 0)
+                      \* byte-level edits of a valid document or object: it either stays acceptable (and may then be stored) or is
+                      \* refused; the doubles never fail, so a server error is never right
+                      /\ (want = "no5xx" => o.st <= 499)
 
 \* ---- structure-aware mutation of a document: one edit at one node
 DelAt(s, i) == SubSeq(s, 1, i - 1) \o SubSeq(s, i + 1, Len(s))
@@ -56,4 +61,15 @@ Muts(n) == IF IsText(n) THEN {[n EXCEPT !.text = "mutated-text"]}
                 \cup {[n EXCEPT !.kids = DelAt(n.kids, i)] : i \in 1..Len(n.kids)}
                 \cup {[n EXCEPT !.kids = DupAt(n.kids, i)] : i \in 1..Len(n.kids)}
                 \cup UNION {{[n EXCEPT !.kids[i] = m] : m \in Muts(n.kids[i])} : i \in 1..Len(n.kids)}
+\* ---- grafts: any element of the document (whole subtree, or bare) inserted as first or last child of any element. This
+\* produces the combinations of one invalid feature with every other feature of the document (allprop next to prop inside a
+\* calendar-data that also carries expand, is-not-defined next to a text-match, a second filter, ...), which single edits of a
+\* valid document cannot reach.
+RECURSIVE Elems(_)
+Elems(n) == IF IsText(n) THEN {} ELSE {n, [n EXCEPT !.kids = << >>]} \cup UNION {Elems(n.kids[i]) : i \in 1..Len(n.kids)}
+RECURSIVE GraftInto(_, _)
+GraftInto(n, S) == IF IsText(n) THEN {}
+                   ELSE {[n EXCEPT !.kids = <<s>> \o n.kids] : s \in S} \cup {[n EXCEPT !.kids = n.kids \o <<s>>] : s \in S}
+                        \cup UNION {{[n EXCEPT !.kids[i] = m] : m \in GraftInto(n.kids[i], S)} : i \in 1..Len(n.kids)}
+Grafts(d, big) == GraftInto(d, IF big THEN Elems(d) ELSE {e \in Elems(d) : e.kids = << >>})
 =============================================================================
